@@ -1,4 +1,5 @@
 #![allow(dead_code)]
+mod bigsem;
 mod cli;
 mod closure;
 mod space;
